@@ -41,6 +41,9 @@ PYTYPES = {"int": "Tint", "float": "Tfloat", "str": "Tstr", "bool": "Tbool", "No
            "list": "Tlist", "tuple": "Ttuple", "set": "Tset", "dict": "Tdict"}
 
 
+TRUTHY = {"jv": "jv_truthy", "str": "str_truthy", "optdeser": "opt_truthy", "optser": "opt_truthy"}
+
+
 def strlit(s: str) -> str:
     return "[" + "; ".join(str(ord(c)) for c in s) + "]"
 
@@ -289,8 +292,10 @@ def block(stmts: List[ast.stmt], cx: Ctx, param: str, must_end: bool = True) -> 
             raise
         try:
             c, cty = pure(s.test, cx)
+            if cty in TRUTHY:          # `if x:` on a non-boolean is bool(x)
+                c, cty = f"({TRUTHY[cty]} {c})", "bool"
             if cty != "bool":
-                raise Refuse(s, f"if-test of type {cty} (truthiness not translated here)", fn)
+                raise Refuse(s, f"if-test of type {cty} (truthiness not in the idiom table)", fn)
             return f"(if {c}\n   then {thn}\n   else {els})"
         except Refuse:
             m, mty = effectful(s.test, cx)
